@@ -129,6 +129,21 @@ func recC12(c *ctx) {
 			}
 		}
 	}
+	// ---- generators: GenerateMiniSecretKey = the 32 bytes read; GenerateSecretKey = wide-reduced 64 bytes || 32 nonce bytes
+	for i := 0; i < 2; i++ {
+		ent := r.Bytes(96)
+		m, err1 := sr25519.GenerateMiniSecretKey(bytes.NewReader(ent))
+		s, err2 := sr25519.GenerateSecretKey(bytes.NewReader(ent))
+		k, err3 := sr25519.GenerateKeyPair(bytes.NewReader(ent))
+		if err1 != nil || err2 != nil || err3 != nil {
+			emit(vt.Ev{"op": "srfail", "what": "generate"})
+			continue
+		}
+		mb, _ := m.MarshalBinary()
+		sb, _ := s.MarshalBinary()
+		kb, _ := k.MarshalBinary()
+		emit(vt.Ev{"op": "srgen", "entropy": vt.B(ent), "mini": vt.B(mb), "sk": vt.B(sb), "pair": vt.B(kb)})
+	}
 	// ---- decoders on boundary strings
 	dec := func(kind string, b []byte) {
 		e := vt.Ev{"op": "srdecode", "kind": kind, "in": vt.B(b)}
@@ -287,6 +302,36 @@ func recC12(c *ctx) {
 		}
 		bemit(vt.Ev{"op": "srbverify", "all": all, "vec": vec})
 		bemit(vt.Ev{"op": "srbonly", "res": bv.VerifyBatchOnly(nil)})
+		// batch soundness probe: two individually invalid signatures whose scalar errors cancel (s1 + 1, s2 - 1): the
+		// random delinearisation coefficients must differ between entries, so the batch equation must still fail
+		if h%2 == 0 {
+			bv.Reset()
+			bemit(vt.Ev{"op": "srbreset"})
+			for _, delta := range []int64{1, -1} {
+				k, _ := sr25519.GenerateKeyPair(bytes.NewReader(r.Bytes(4096)))
+				msg := r.Bytes(10)
+				sig, _ := k.Sign(bytes.NewReader(r.Bytes(64)), sctx.NewTranscriptBytes(msg))
+				sbb, _ := sig.MarshalBinary()
+				sv := vt.FromLE(append(append([]byte(nil), sbb[32:63]...), sbb[63]&0x7f))
+				sv.Add(sv, big.NewInt(delta))
+				sv.Mod(sv, L)
+				nb := append(append([]byte(nil), sbb[:32]...), vt.LE(sv, 32)...)
+				nb[63] |= 0x80
+				bad, err := sr25519.NewSignatureFromBytes(nb)
+				if err != nil {
+					continue
+				}
+				single := k.PublicKey().Verify(sctx.NewTranscriptBytes(msg), bad)
+				bv.Add(k.PublicKey(), sctx.NewTranscriptBytes(msg), bad)
+				bemit(vt.Ev{"op": "srbadd", "kind": "wrongmsg", "single": single})
+			}
+			bemit(vt.Ev{"op": "srbonly", "res": bv.VerifyBatchOnly(nil)})
+			all2, vec2 := bv.Verify(nil)
+			if vec2 == nil {
+				vec2 = []bool{}
+			}
+			bemit(vt.Ev{"op": "srbverify", "all": all2, "vec": vec2})
+		}
 	}
 	_ = curve.CompressedPointSize
 }
